@@ -26,16 +26,16 @@ def regenerate():
     import os
     import re
     from . import core
-    rc, out = core.sh([os.path.join(core.ROOT, 'tools', 'regen.sh'), 'filter'], timeout=300)
+    rc, out = core.sh([os.path.join(core.ROOT, 'tools', 'regen.sh'), 'filter', 'helpers', 'util'], timeout=300)
     del TRUSTED[:]
     TRUSTED.extend(_TRUSTED_BASE)
     if rc != 0:
         msg = [ln for ln in out.split('\n') if 'REFUSED' in ln]
-        TRUSTED.append('translator REFUSED biom/_filter.pyx on this run; coq/Gen/FilterGen.v is stale')
-        raise core.Broken('translator rejected biom/_filter.pyx: %s' % (msg[0].split('REFUSED', 1)[1].strip() if msg else 'rc=%d' % rc), out[-3000:])
-    m = re.search(r'-> (\S+) (written|unchanged) \(source sha256 ([0-9a-f]+)\)', out)
-    TRUSTED.append('coq/Gen/FilterGen.v (rebuild_body, remove_rows) regenerated from biom/_filter.pyx by tools/py2v via '
-                   'tools/decython.py on this run (%s; sha256 of source %s)' % (m.group(2) if m else '?', m.group(3) if m else '?'))
+        TRUSTED.append('translator REFUSED a source on this run; the generated file is stale')
+        raise core.Broken('translator rejected %s' % (msg[0].split('REFUSED', 1)[1].strip() if msg else 'rc=%d' % rc), out[-3000:])
+    for m in re.finditer(r'py2v: (\S+) -> (\S+) (written|unchanged) \(source sha256 ([0-9a-f]+)\)', out):
+        TRUSTED.append('%s regenerated from %s by tools/py2v on this run (%s; sha256 of source %s)'
+                       % (m.group(2), m.group(1), m.group(3), m.group(4)))
 
 
 ASSUMPTIONS = ['predicates are deterministic functions of (vector, id, metadata) and copy the vector on receipt']
